@@ -62,7 +62,18 @@ struct Arena {
 
 struct State {
   SaKnobs knobs;
-  std::vector<BlockInfo> blocks;                    // by id (id = index)
+  // by id. Records of blocks released long ago are dropped at quiet points (sa_compact); ids keep counting.
+  struct BlockTable {
+    std::vector<BlockInfo> v; uint64_t base = 0;
+    BlockInfo& operator[](uint64_t id) { return v[(size_t)(id - base)]; }
+    const BlockInfo& operator[](uint64_t id) const { return v[(size_t)(id - base)]; }
+    uint64_t size() const { return base + v.size(); }
+    bool has(uint64_t id) const { return id >= base && id < base + v.size(); }
+    void push_back(const BlockInfo& b) { v.push_back(b); }
+    void clear() { v.clear(); base = 0; }
+    std::vector<BlockInfo>::iterator begin() { return v.begin(); }
+    std::vector<BlockInfo>::iterator end() { return v.end(); }
+  } blocks;
   std::unordered_map<const void*, uint64_t> live;   // user pointer -> id (never iterated for output)
   uint64_t live_bytes = 0;
   uint64_t t_requests[SA_MAX_TASKS] = {0}, t_live[SA_MAX_TASKS] = {0}, t_xor[SA_MAX_TASKS] = {0}, t_seq[SA_MAX_TASKS] = {0}, t_bytes[SA_MAX_TASKS] = {0}, t_maxreq[SA_MAX_TASKS] = {0}, t_realloc_limit[SA_MAX_TASKS] = {0};
@@ -217,7 +228,14 @@ const BlockInfo* sa_find_containing(const void* p) {
   for (auto& b : S.blocks) if (b.live && (const unsigned char*)p >= b.user && (const unsigned char*)p < b.user + (b.size ? b.size : 1)) return &b;
   return nullptr;
 }
-const BlockInfo* sa_by_id(uint64_t id) { return id < S.blocks.size() ? &S.blocks[id] : nullptr; }
+const BlockInfo* sa_by_id(uint64_t id) { return S.blocks.has(id) ? &S.blocks[id] : nullptr; }
+void sa_compact() {
+  // nothing is live and no window is open: the records of dead blocks are history nobody will ask about again
+  if (!S.live.empty() || sched_active() || S.knobs.backend == BE_ARENA) return;   // the arena keeps the ids of released blocks to re-check their fill
+  for (int i = 0; i < SA_MAX_TASKS; i++) if (S.win[i].open) return;
+  if (S.blocks.v.size() < 4096) return;
+  S.blocks.base += S.blocks.v.size(); S.blocks.v.clear(); S.blocks.v.shrink_to_fit();
+}
 std::vector<uint64_t> sa_live_ids() { std::vector<uint64_t> v; for (auto& b : S.blocks) if (b.live) v.push_back(b.id); return v; }
 std::vector<BlockImage> sa_snapshot() {
   std::vector<BlockImage> v;
